@@ -1,7 +1,7 @@
 """C05 — kernels compute their documented closed forms and are valid covariances."""
 import time, itertools
 import numpy as np
-from ..common import (mellon, bits, unbits, cov_to_mellon, cov_tokens, cov_depth, cov_str, gen_cov, gen_ad,
+from ..common import (mellon, bits, unbits, cov_to_mellon, cov_to_mellon_ops, cov_tokens, cov_depth, cov_str, gen_cov, gen_ad,
                       gen_points, loguniform, LEAVES, STATIONARY, ad_indices, rel_err, totuple, fbit)
 from .. import covoracle as co
 from .. import gradoracle as go
@@ -69,6 +69,23 @@ def case_cov(ctx, res, p):
         res.oracle_fail("kernel value outside the documented closed form", p,
                         detail={"i": int(i), "j": int(j), "impl": float(K[i, j]), "lo": float(lo[i, j]),
                                 "hi": float(hi[i, j])}, signature="C05:closed-form")
+    # --- the same tree written with the public operators (k + c, c * k, k ** p, ...) obeys the same closed form
+    if tree[0] not in LEAVES:
+        try:
+            Kop = np.asarray(cov_to_mellon_ops(tree)(X, Y), dtype=float)
+        except Exception as e:
+            res.oracle_fail(f"operator-built kernel raised {type(e).__name__}: {e}", p, signature="C05:operator-raises")
+            Kop = None
+        if Kop is not None:
+            okop = co.inside(Kop, lo, hi) if Kop.shape == K.shape else np.zeros((1, 1), bool)
+            if not np.all(okop):
+                i, j = np.argwhere(~okop)[0]
+                res.oracle_fail("tree built with + * ** is not the pointwise sum/product/power of its operands on "
+                                "their own active dimensions", p,
+                                detail={"i": int(i), "j": int(j), "constructor_built": float(K[i, j]) if Kop.shape == K.shape else None,
+                                        "operator_built": float(Kop[i, j]) if Kop.shape == K.shape else None},
+                                signature="C05:operator-composition")
+            res.count("operator_built=checked")
     # --- correspondence: model in the same interval and close to impl
     if ctx["driver"] is not None:
         Km = model_cov(ctx, tree, X, Y)
